@@ -6,10 +6,10 @@ props = [json.loads(l) for l in open(os.path.join(V, "properties.jsonl"))]
 titles = {p["id"]: p["title"] for p in props}
 
 CHECKS = {
- "C01": dict(tech="TLC model checking of Lookup.tla vs kernel-model oracle (VFS!KResolve) + replay of every TLC-generated case into the real library (both backends) and the real openat2",
+ "C01": dict(tech="TLC model checking of Lookup.tla vs kernel-model oracle (VFS!KResolve) + replay of every TLC-generated case into the real library (both backends) and the real openat2 + action-level trace validation of real lookups against Lookup.tla itself (TraceLookup.tla)",
              text="TLC exhaustively checks the emulated-walk step machine against the RESOLVE_IN_ROOT oracle on a bounded family of trees/paths/ops (AgreesWithKernel, InRoot, Bounded) and emits one case per terminal state; each case is replayed on the real library with and without openat2 and on the real kernel (three-way). Model checking is the right level: the property is an input/configuration quantifier over a small-step algorithm.",
-             note="bounded instance; oracle validated against the running kernel on every replayed case (kernel arbitrates); link budgets scaled", ref="6/C01"),
- "C02": dict(tech="TLC model checking of Lookup.tla with an attacker process (invariant Contained, mechanism-removal variants) + ptrace-scheduled attacker sweeps on the real library judged by TLC trace validation (TraceFS.tla)",
+             note="bounded instance; oracle validated against the running kernel on every replayed case (kernel arbitrates); link budgets scaled in the large instances, real (40/128) in the chain instance", ref="6/C01"),
+ "C02": dict(tech="TLC model checking of Lookup.tla with an attacker process (invariant Contained, mechanism-removal variants) + ptrace-scheduled attacker sweeps on the real library (race trees + host-path mirror tree) judged by TLC trace validation (TraceFS.tla, TraceLookup.tla)",
              text="Design: every interleaving of attacker mutations with the walk's syscalls within the bound satisfies Contained; variants with check_current removed must violate it. Code: every attacker action of a repertoire is placed before every tree-relevant syscall of real lookups by a ptrace supervisor; each recorded trace is validated by TLC, which recomputes everIn from logged mutations.",
              note="a single openat2 is atomic-or-EAGAIN in the kernel (trusted); root dentry not moved; bounded trees/paths/attacker budget; quick tier samples the non-priority placements", ref="6/C02"),
  "C05": dict(tech="TLC trace validation of the raw ptrace-recorded syscall stream against the provenance automaton TraceDiscipline.tla",
@@ -22,16 +22,16 @@ CHECKS = {
  "C03": dict(tech="TLC invariants OutsideFrame/ResultInside on RootOps.tla (all path spellings) + ptrace-scheduled attacker sweeps over every mutating operation judged by TLC trace validation (TraceFS.tla)",
              text="Static: TLC checks that no argument spelling makes the single *at call act on or return anything outside the root, and the dot-name/escaping spellings are replayed traced. Dynamic: every attacker action of the repertoire before every tree-relevant syscall of every mutating op; TLC replays all logged mutations, recomputes everIn and judges every library mutation / real open / returned descriptor.",
              note="attacker does not move the root dentry; single openat2 atomic-or-EAGAIN; quick tier samples non-priority placements; known finding F-C03-mkdir-all-below-new-dir is listed", ref="6/C03"),
- "C04": dict(tech="TLC-generated case families (Lookup.tla, RootOps.tla) + open-flag lattice, each replayed on the real library with openat2 present and masked (seccomp ENOSYS), outcomes compared field by field",
+ "C04": dict(tech="TLC-generated case families (Lookup.tla, RootOps.tla) + open-flag lattice + NUL-byte paths, each replayed on the real library with openat2 present and masked (seccomp ENOSYS), outcomes compared field by field; TLC equivalence of the emulated partial lookup (Partial.tla, SymlinkStack) with the openat2-style one",
              text="Same tree and arguments on both feature sets: success/failure, error class+errno, result inode, F_GETFL image (without O_NOFOLLOW), FD_CLOEXEC, resulting tree; lookups, single-entry mutations, mkdir_all/remove_all spellings, flag lattice restricted to flag sets openat2 accepts.",
              note="bounded instances; <= 40 link traversals; flag sets rejected by openat2's validation are outside the quantifier", ref="6/C04"),
- "C10": dict(tech="ptrace fault injection at every index of the real syscall sequence (single faults, EAGAIN sequences, fd exhaustion) judged by TLC (TraceFault.tla clean-failure contract + TraceFS containment)",
+ "C10": dict(tech="ptrace fault injection at every index of the real syscall sequence (single faults, EAGAIN sequences around the measured retry bound, fd exhaustion) judged by TLC (TraceFault.tla clean-failure contract + TraceFS containment + TraceLookup K_Openat2 retry automaton)",
              text="For every scenario call x feature set x cold/warm the real injectable-syscall sequence is recorded and each (index, errno) is re-run; TLC evaluates NoPanic, Terminates, ErrorOrSame (success only if the outcome equals the unfaulted run), OutsideFrame, NoLeak and the EAGAIN retry rule on every outcome record.",
              note="faults only in file-related syscalls; quick tier samples (index, errno) with a seed; thorough enumerates all", ref="6/C10"),
- "C12": dict(tech="TLC sequential model DoMkdirAll (RootOps.tla) generating every path spelling + two-process ptrace schedules (<=2 preemptions) judged by TLC postconditions (TraceFS!PostViolations)",
+ "C12": dict(tech="TLC sequential model DoMkdirAll (RootOps.tla) generating every path spelling + two-process model Mkdir2.tla (state-graph-derived schedules) + two-process ptrace schedules (<=2 preemptions) judged by TLC postconditions (TraceFS!PostViolations) and action-level trace validation (TraceMkdir2.tla)",
              text="Every spelling of the bounded instance is executed traced on both backends; two concurrent mkdir_all callers are interleaved at relevant-syscall granularity; TLC checks on the real snapshots: handle = in-root resolution, only new directories named by the path were added with the requested mode, nothing removed, all concurrent callers succeed.",
              note="umask 022; no setgid directories; schedules bounded to two preemptions; known finding F-C12-empty-path listed", ref="6/C12"),
- "C13": dict(tech="TLC sequential model DoRemoveAll (RootOps.tla) generating every path spelling + two-process ptrace schedules judged by TLC postconditions (TraceFS!PostViolations)",
+ "C13": dict(tech="TLC sequential model DoRemoveAll (RootOps.tla) generating every path spelling + two-process model Remove2.tla (any listing order, attacker exchange) + two-process ptrace schedules and attacker sweeps judged by TLC postconditions (TraceFS!PostViolations) and action-level trace validation (TraceRemove2.tla)",
              text="TLC checks on the real snapshots: nothing added, everything removed lies in the initial subtree of the named entry, the entry and its whole subtree are gone on success, dot names refused, concurrent callers all succeed.",
              note="schedules bounded to two preemptions", ref="6/C13"),
  "C14": dict(tech="TLC (RootOps.tla) computes expected errno class and final tree for every (tree, op, spelling); replayed three-way: library with openat2, library without, and the harness' raw *at call on (openat2-RESOLVE_IN_ROOT parent, name)",
@@ -40,7 +40,7 @@ CHECKS = {
 
  "C09": dict(tech="TLC enumeration of Reopen.tla (inode kind x access mode x extra flag x descriptor number x history) replayed through Handle::reopen and pathrs_reopen on both feature sets, plus a private-descriptor-table thread scenario",
              text="Every enumerated case: same inode as the handle, requested access mode/flags + O_CLOEXEC, ELOOP for symlink handles, creation flags refused, independence of the descriptor number (0, 1, 100) and of rename/replace/unlink histories; a thread with unshare(CLONE_FILES) whose leader holds decoys at the same numbers.",
-             note="static histories (attacker interleavings are C02/C11); host-/proc over-mount behaviour of the same code path is exercised by C06", ref="6/C09"),
+             note="static histories (attacker interleavings are C02/C11); the host /proc is over-mounted as a whole (empty tmpfs, tmpfs with only self); over-mounts of single entries are exercised by C06", ref="6/C09"),
  "C15": dict(tech="TLC enumeration of Psl.tla (648 combinations, invariant SameRefusals) replayed with real chown/chmod/seteuid and the real sysctl on both backends and a raw openat2",
              text="Exhaustive over directory sticky/world-writable bits, directory owner, link owner, caller, link position and sysctl value; library verdict compared with the kernel's measured verdict and the model.",
              note="sysctl is global: set under an exclusive lock and restored; fresh worker per sysctl value", ref="6/C15"),
@@ -53,7 +53,7 @@ CHECKS = {
 
  "C06": dict(tech="TLC model checking of Procfs.tla (skeleton, over-mount relation, handle kinds, both resolvers; invariant Genuine; mechanism-removal variants) + replay of every TLC-generated case with real mount(2) over-mounts in a private mount namespace",
              text="Design: for every over-mount set (<=1 quick, <=2 thorough) x handle kind x resolver x base x path x op a success never touches a visibly over-mounted node. Code: the same cases with real tmpfs/bind mounts (files, dirs, procfs files/dirs, symlink-on-symlink) and handles made from fsopen, open_tree (plain, recursive) and open descriptors; returned descriptors must be genuine (f_type, st_dev of the handle, not an over-mount source), visible over-mounts must fail, private handles must be unaffected (judged against the no-mount twin).",
-             note="needs CAP_SYS_ADMIN in a private mount namespace (available here); racing-mount placements are explored in the thorough tier only", ref="6/C06"),
+             note="needs CAP_SYS_ADMIN in a private mount namespace (available here); quick tier: all racing symlink mounts on host-visible handles + a sample of the other racing placements; known finding F-C06-open_follow-ordinary-symlink listed", ref="6/C06"),
  "C07": dict(tech="TLC invariants NoLeave / MagicComponentRefused / OpenNeverFollows on Procfs.tla + class-level oracle ProcClass.tla (entry class x decoration x operation) applied to the live contents of /proc, /proc/self, /proc/thread-self through both procfs resolvers",
              text="Every live entry (classified file/dir/symlink-to-dir/symlink-to-file/magic-link) x 6 decorations x 9 operations x 2 resolvers: outcome must match the TLC-enumerated class table and, for sub-paths without '..', the two resolvers must agree; creation flags refused.",
              note="the worker's handle is ProcfsHandle::new(); some /proc files legitimately refuse to open (accepted if both resolvers agree); known finding F-C07-nonabsolute-magiclink-enoent listed", ref="6/C07"),
